@@ -168,6 +168,41 @@ func runC22(c *Ctx) {
 			}
 		})
 		c.CheckAt("C22.R2", "(*centrifuge.Node).MapStreamRead: trimmed stream ⇒ ErrorUnrecoverablePosition", w.Pos(msr.Pos()), okTrim, "a read that starts beyond since+1 means entries were trimmed: the position is unrecoverable")
+		// {offset 0, epoch E} is the position of a client that subscribed to an empty channel: entries start
+		// at 1, so a trimmed head is a loss there too. Some trimmed-head return must be reachable with
+		// Since.Offset == 0, i.e. not every one of them sits under a dominating `Since.Offset > 0`.
+		trimReturns, trimReturnsFromZero := 0, 0
+		EachInstr(msr, func(in ssa.Instruction) {
+			r, ok := in.(*ssa.Return)
+			if !ok {
+				return
+			}
+			vals := retVals(r)
+			if len(vals) != 2 || !strings.Contains(D(vals[1]), "ErrorUnrecoverablePosition") {
+				return
+			}
+			if !Guarded(r, func(g Guard) bool {
+				b, ok := g.Cond.(*ssa.BinOp)
+				return ok && g.Pol && b.Op == token.GTR && strings.HasSuffix(D(b.X), ".Offset") && strings.Contains(D(b.Y), "Since.Offset + 1")
+			}) {
+				return
+			}
+			trimReturns++
+			if !Guarded(r, func(g Guard) bool {
+				b, ok := g.Cond.(*ssa.BinOp)
+				if !ok || !strings.HasSuffix(D(b.X), "Since.Offset") {
+					return false
+				}
+				z, isZ := constIntOf(b.Y)
+				return isZ && z == 0 && ((b.Op == token.GTR && g.Pol) || (b.Op == token.NEQ && g.Pol) || (b.Op == token.EQL && !g.Pol))
+			}) {
+				trimReturnsFromZero++
+			}
+		})
+		if trimReturns > 0 {
+			c.CheckAt("C22.R2", "(*centrifuge.Node).MapStreamRead: a trimmed head is also detected from the position {offset 0, known epoch}", w.Pos(msr.Pos()), trimReturnsFromZero > 0,
+				"every trimmed-entries test is skipped when Since.Offset == 0: a client that subscribed to an empty channel (position {0, epoch}) and catches up after more publications than the stream keeps gets the surviving tail and a successful result although offsets 1..k were never delivered")
+		}
 		// the same loss with nothing left to return: no publications although the top is ahead of since
 		okEmpty := false
 		EachInstr(msr, func(in ssa.Instruction) {
